@@ -192,5 +192,25 @@ def check_mle(ctx):
         seps = ['tuple(%s&set(%s))' % (acc, cl), 'tuple(set(%s)&%s)' % (cl, acc), 'list(%s&set(%s))' % (acc, cl),
                 'sorted(%s&set(%s))' % (acc, cl)]
         ok_store = any(got == '%s.log()-%s.project(%s).log()' % (m, m, sp) for sp in seps)
+        vec_note = ''
+        if not ok_store:
+            # the same difference on the raw arrays: Factor.log is np.log(values + FLOOR); the separator marginal broadcast to the clique.
+            # Without the floor a cell where marginal and separator marginal are both 0 gives -inf - (-inf) = NaN.
+            import re
+            flog = ctx.repo.nfunc('src/mbi/factor.py', 'Factor.log')
+            floors = {U(c.args[0].right) for c in ast.walk(flog.node) if isinstance(c, ast.Call) and U(c.func) in ('np.log', 'numpy.log') and c.args
+                      and isinstance(c.args[0], ast.BinOp) and isinstance(c.args[0].op, ast.Add)}
+            for sp in seps:
+                for ctor in ('type(%s)' % m, 'Factor', 'self.Factor', '%s.__class__' % m):
+                    pat = re.escape('%s(%s.domain,np.log(%s.values' % (ctor, m, m)) + r'(\+[0-9.e+-]+)?' + re.escape(')-np.log(%s.project(%s).expand(%s.domain).values' % (m, sp, m)) + \
+                        r'(\+[0-9.e+-]+)?' + re.escape('))')
+                    mm = re.fullmatch(pat, got)
+                    if mm:
+                        f1, f2 = mm.group(1), mm.group(2)
+                        if f1 and f2 and f1 == f2 and f1[1:] in {x.replace(' ', '') for x in floors}:
+                            ok_store = True
+                        else:
+                            vec_note = ('; the array form drops (or changes) the floor `%s` that Factor.log adds before taking the logarithm: where the '
+                                        'marginal and its separator marginal are both 0 it gives -inf - (-inf) = NaN' % ', '.join(sorted(floors)))
     ctx.ob('mle-form', fi, store[1] if store else loop, ok_store,
-           'potential of a clique must be log(marginal) - log(marginal projected onto the separator); source (locals expanded): `%s`' % got)
+           'potential of a clique must be log(marginal) - log(marginal projected onto the separator); source (locals expanded): `%s`%s' % (got, vec_note))
